@@ -43,7 +43,7 @@ claim("C11", "proof",
       "bit sizes 254/255/64; for all n the Num2Bits/Bits2Num guard is 'constant and < 254'; for all k and each curve the LessThan range "
       "check holds iff 2^k - 1 <= p/2; a spelling is accepted iff its ASCII upper-casing is one of the three names. The hand-modelled "
       "guards are tied to the real passes on every (curve, name) incl. near-misses, all sizes 0..300 and non-constant sizes, and ~300 "
-      "spellings incl. non-ASCII look-alikes (in-process and through clap).",
+      "spellings incl. non-ASCII look-alikes (in-process and through clap). Round 3: a range-check component instantiated in two ways must not count as a range check unless every instantiation qualifies (fix b3b1ebe); the main component's instantiation is not analysed by the tool (known finding F-C11-main-component).",
       "Lean kernel + standard axioms; the regex translator and the harness are trusted; clap is exercised only.",
       "Lean 4 proof over tables regenerated from source + complete finite correspondence of the guards", "5 (C11)")
 
@@ -73,7 +73,7 @@ claim("C17", "proof",
       "findings are permutations of each other (same multiset), exit status and summary agree, and the batch of a definition is a function "
       "of that definition alone (so adding/removing/reordering other definitions cannot change it). This proves the 'all hash-map iteration "
       "orders' quantifier for the runner; hash order inside passes/SSA/TemplateLibrary is only sampled (partial): every project is run in "
-      "many separate processes (fresh hasher state), with definitions permuted, input files in both orders and unrelated definitions added.",
+      "many separate processes (fresh hasher state), with definitions permuted, input files in both orders and unrelated definitions added. Round 3: hand-written projects of several files are run in both argument orders with the file of every label compared (fix c7e33f0: the files are read in the order of their paths; an unreadable included file is reported at every include statement); a project with templates the desugaring rejects next to templates that use them; the SSA conversion is proved independent of hash order (C17_ssa_hash_order, C17_ssa_phi_order).",
       "Lean kernel + standard axioms; per-definition determinism of lifting, SSA and the passes is exercised by repeated runs, not proved.",
       "Lean 4 proof (permutation invariance of the runner) + repeated/permuted process runs", "5 (C17)")
 
